@@ -198,6 +198,7 @@ fn cls_http(b: &HttpBeh, tag: &str) -> Cls {
             429 => Cls::Transient("429"),
             _ => Cls::Definitive,
         },
+        HttpBeh::Redirect { doc: d, rows, .. } => Cls::Good(doc(*d, *rows, tag).1),
         HttpBeh::Malformed { .. } => Cls::Ambiguous,
         HttpBeh::Refuse => Cls::Unobservable,
         HttpBeh::CloseMid { .. } => Cls::KnownStop,
@@ -924,6 +925,7 @@ fn http_st(stall: bool) -> BoxedStrategy<HttpBeh> {
         3 => (proptest::sample::select(vec![400u16, 401, 403, 404, 410]), proptest::bool::weighted(0.25))
             .prop_map(|(code, bpsv_body)| HttpBeh::Status { code, retry_after: None, bpsv_body }),
         2 => (0u8..N_HTTP_MALFORMED).prop_map(|kind| HttpBeh::Malformed { kind }),
+        1 => (proptest::sample::select(vec![301u16, 302, 307, 308]), any::<u8>(), rows_st()).prop_map(|(code, doc, rows)| HttpBeh::Redirect { code, doc, rows }),
         3 => Just(HttpBeh::Refuse),
         2 => (0u8..3, any::<u16>()).prop_map(|(stage, at)| HttpBeh::CloseMid { stage, at }),
     ];
